@@ -138,6 +138,14 @@ def newTokenizer (cmp : Cmp ε τ) (s : TkState τ) (m : MacrosArg) (p : ProdsAr
     | .error e => (.error e, s)
     | .ok t => (.ok (t, false), { s with cache := cset s.cache (keyOf m p) t, insts := s.insts ++ [t] })   -- :61, :63-65
 
+/-- `Tokenizer.tokenize` begins with `self._bind()` (`tokenize2.py:149`, since "tokenizers which exist when settings.set
+changes the productions follow the new productions"): the same look-up as in `__init__`, with the arguments the object
+was created with (`self._hash_key`, `self._macros`, `self._productions`). Returns the tables this run works with and
+whether the key was found; the cache may gain the entry, no object is created -/
+def runTokenizer (cmp : Cmp ε τ) (s : TkState τ) (m : MacrosArg) (p : ProdsArg) : Except ε (τ × Bool) × TkState τ :=
+  let r := newTokenizer cmp s m p
+  (r.1, { r.2 with insts := s.insts })
+
 /-- `list.insert(1, x)` -/
 def insert1 (x : Str × Str) : Items → Items
   | [] => [x]
@@ -155,10 +163,13 @@ def settingsSetNoClear (s : TkState τ) : TkState τ :=
 inductive TkOp
   | new (m : MacrosArg) (p : ProdsArg)
   | settings
+  /-- a `tokenize` run of an object created as `Tokenizer(m, p)` -/
+  | run (m : MacrosArg) (p : ProdsArg)
 
 def tkStep (cmp : Cmp ε τ) (s : TkState τ) : TkOp → TkState τ
   | .new m p => (newTokenizer cmp s m p).2
   | .settings => settingsSet s
+  | .run m p => (runTokenizer cmp s m p).2
 
 def tkRun (cmp : Cmp ε τ) (s : TkState τ) (ops : List TkOp) : TkState τ := ops.foldl (tkStep cmp) s
 
@@ -167,6 +178,7 @@ def tkExplicit : List TkOp → List TkOp
   | [] => []
   | .settings :: t => .settings :: tkExplicit t
   | .new _ _ :: t => tkExplicit t
+  | .run _ _ :: t => tkExplicit t
 
 /-! ## `_expand_macros` / `_compile_productions` (`tokenize2.py:70-91`) up to `re.compile` -/
 
